@@ -34,11 +34,15 @@ SHARDS = {"quick": 4, "thorough": 16}
 # field type -> (a valid JSON value that is not the declared default, its parsed form for comparison)
 VALID = {
     "int": 41, "str": "vv", "float": 2.25, "bool": True, "list": [4, 5], "dict": {"kk": 3}, "opt": 9, "union": 8, "datetime": "2021-02-03T04:05:06",
-    "con:int": 3, "con:str": "q", "date": "2021-02-03", "enum": "green", "data": {"p": 1},
+    "con:int": 3, "con:str": "q", "date": "2021-02-03", "enum": "green", "data": {"p": 1}, "list:data": [{"p": 2}],
 }
 INNER = {"name": "In13", "base": "schema", "fields": [{"name": "p", "type": {"k": "leaf", "o": "int"}},
                                                       {"name": "q", "type": {"k": "con", "o": "str", "c": {"max_length": 2}}, "f": {"plain_default": {"v": ""}}}]}
-EXTRA_FIELD_TYPES = [{"k": "leaf", "o": "date"}, {"k": "enum", "e": "Color"}, {"k": "data", "d": INNER}]
+# a second, different nested class with the SAME name (two definitions competing for one $defs name)
+INNER2 = {"name": "In13", "base": "schema", "fields": [{"name": "p", "type": {"k": "leaf", "o": "str"}},
+                                                       {"name": "z", "type": {"k": "leaf", "o": "bool"}, "f": {"plain_default": {"v": False}}}]}
+EXTRA_FIELD_TYPES = [{"k": "leaf", "o": "date"}, {"k": "enum", "e": "Color"}, {"k": "data", "d": INNER}, {"k": "data", "d": INNER2},
+                     {"k": "list", "a": {"k": "data", "d": INNER}}]
 
 
 def tkey(t):
@@ -46,6 +50,8 @@ def tkey(t):
         return t["o"]
     if t["k"] == "con":
         return "con:" + t["o"]
+    if t["k"] == "list" and t["a"]["k"] == "data":
+        return "list:data"
     return t["k"]
 
 
@@ -59,8 +65,13 @@ def to_json(x):
     return json.loads(json.dumps(x, cls=utype.JSONEncoder))
 
 
-def schema_of(T, mode=None, output=False):
+def schema_of(T, mode=None, output=False, shared_defs=False):
     from utype.specs.json_schema.generator import JsonSchemaGenerator
+    if shared_defs:
+        g = JsonSchemaGenerator(T, defs={}, mode=mode, output=output)
+        doc = dict(g())
+        doc["$defs"] = g.get_defs()
+        return doc
     return JsonSchemaGenerator(T, mode=mode, output=output)()
 
 
@@ -231,7 +242,7 @@ def sanitize(d):
         for k in ("no_input", "no_output"):
             if isinstance(f.get(k), str) and f[k].startswith("fn:"):
                 f.pop(k)      # decided per value by a callable: not expressible in a schema
-        if tkey(fd["type"]) in ("date", "enum", "data"):
+        if tkey(fd["type"]) in ("date", "enum", "data", "list:data"):
             for k in ("default", "plain_default", "factory", "defer_default"):
                 f.pop(k, None)
         if not f:
@@ -259,7 +270,7 @@ def judge_data(case):
         cls = dspec.build_decl(d)
         gm = mode if via == "generator" else None
         in_schema = schema_of(cls, mode=gm, output=False)
-        out_schema = schema_of(cls, mode=gm, output=True)
+        out_schema = schema_of(cls, mode=gm, output=True, shared_defs=bool(case.get("shared_defs")))
     except HarnessError:
         raise
     except decl_errors():
@@ -290,7 +301,7 @@ def judge_data(case):
         if errs:
             e = errs[0]
             why = "decimal-beyond-js-safe-range-encoded-as-string" if unsafe_decimal(out[1]) else culprit(errs)
-            fails.append((f"output-violates-schema/{why}/data/via-{via}", {"json": oracle.short(doc), "schema": oracle.short(js_out, 500), "error": e.message[:200],
+            fails.append((f"output-violates-schema/{why}/data/via-{via}{'/shared-defs' if case.get('shared_defs') else ''}", {"json": oracle.short(doc), "schema": oracle.short(js_out, 500), "error": e.message[:200],
                                                                                    "mode": mode, "features": feats}))
             break
     # (3) structure of the input schema, behaviourally
@@ -422,7 +433,8 @@ def case_strategy(thorough):
     decls = dspec.decl_specs(rich=True, bases=("schema", "schema", "dataclass"), options=DATA_OPTIONS, max_fields=4, field_types=ft, name="D13")
     data = decls.flatmap(lambda d: st.fixed_dictionaries({
         "kind": st.just("data"), "decl": st.just(d), "mode": st.sampled_from([None, None, "r", "w", "a"]),
-        "mode_via": st.sampled_from(["class", "class", "generator"]), "inputs": st.lists(dspec.inputs_for(d), min_size=1, max_size=4)}))
+        "mode_via": st.sampled_from(["class", "class", "generator"]), "inputs": st.lists(dspec.inputs_for(d), min_size=1, max_size=4),
+        "shared_defs": st.booleans()}))
     return st.one_of(types, data, data)
 
 
